@@ -198,6 +198,10 @@ fn gen_font_gdef(space: bool, ign_mapped: bool, spec: &[(u32, u32)], gdef_class:
 /// `kern`: a legacy 'kern' table kerning every ordered pair of the Latin letters a..h (no GSUB/GPOS): the pair
 /// search must step over default ignorables exactly as over nothing.
 fn gen_font_full(space: bool, ign_mapped: bool, spec: &[(u32, u32)], gdef_class: Option<u16>, kern: bool) -> GenFont {
+    gen_font_full2(space, ign_mapped, spec, gdef_class, kern, false)
+}
+
+fn gen_font_full2(space: bool, ign_mapped: bool, spec: &[(u32, u32)], gdef_class: Option<u16>, kern: bool, di_pairs: bool) -> GenFont {
     let mut cps: Vec<u32> = letters();
     if space {
         cps.push(0x20);
@@ -224,9 +228,20 @@ fn gen_font_full(space: bool, ign_mapped: bool, spec: &[(u32, u32)], gdef_class:
         }
         gid += 1;
     }
-    let name = format!("{}{}{}{}", if space { "S" } else { "N" }, if ign_mapped { "M" } else { "U" }, gdef_class.map(|c| format!("g{}", c)).unwrap_or_default(), if kern { "k" } else { "" });
+    let name = format!("{}{}{}{}", if space { "S" } else { "N" }, if ign_mapped { "M" } else { "U" }, gdef_class.map(|c| format!("g{}", c)).unwrap_or_default(), if di_pairs { "kd" } else if kern { "k" } else { "" });
     let mut f = GenFont { name, data: Vec::new(), groups, space: None, num_glyphs: gid };
     let mut pairs: Vec<(u16, u16, i16)> = Vec::new();
+    if kern && di_pairs {
+        // pairs whose FIRST glyph is an ignorable's own glyph: positioning then moves the ignorable itself (and, through
+        // the split of the kerning value, its neighbour) before it is zeroed and hidden
+        for d in [0xADu32, 0x200B, 0x200C, 0x200D, 0x2060, 0xFEFF] {
+            if f.gid(d) != 0 {
+                for b in 0x61..=0x68u32 {
+                    pairs.push((f.gid(d) as u16, f.gid(b) as u16, -(40 + 6 * (b - 0x61) as i16)));
+                }
+            }
+        }
+    }
     if kern {
         for a in 0x61..=0x68u32 {
             for b in 0x61..=0x68u32 {
@@ -664,11 +679,14 @@ fn predicate(c: &Case) -> Result<Option<String>, String> {
 fn predicate_on(c: &Case, base: &[Out], with: &[u32], out: &[Out], full: bool) -> Result<(), String> {
     let backward = matches!(c.dir, Direction::RightToLeft | Direction::BottomToTop);
     let ltr = c.dir == Direction::LeftToRight;
+    // a font that kerns the ignorable's own glyph against its neighbours: the neighbours' positions legitimately change
+    // (the kerning table is a positioning table); only what the property says about the ignorable itself is judged
+    let only_the_ignorable = c.font.name.ends_with("kd");
     let others_same = |o: &[Out]| -> Result<(), String> {
         if o.len() != base.len() {
             return Err(format!("others-count {}!={}", o.len(), base.len()));
         }
-        if !(ltr || full) {
+        if !(ltr || full) || only_the_ignorable {
             return Ok(());
         }
         for (a, b) in o.iter().zip(base.iter()) {
@@ -723,7 +741,7 @@ fn predicate_on(c: &Case, base: &[Out], with: &[u32], out: &[Out], full: bool) -
         return one_extra("preserve", &|g: &Out| {
             if g.gid != own {
                 Err(format!("preserve-own-glyph {}!={}", g.gid, own))
-            } else if cf && horizontal && own != 0 && g.pos[0] != adv_of(own) {
+            } else if cf && horizontal && own != 0 && !only_the_ignorable && g.pos[0] != adv_of(own) {
                 Err(format!("preserve-own-advance {}!={}", g.pos[0], adv_of(own)))
             } else {
                 Ok(())
@@ -790,6 +808,7 @@ fn search(args: &[String]) {
     // fonts with a legacy kern table (predicate only: the simple pipeline model of the API correspondence has no kerning)
     fonts.push(gen_font_full(true, true, &spec, None, true));
     fonts.push(gen_font_full(false, false, &spec, None, true));
+    fonts.push(gen_font_full2(true, true, &spec, None, true, true));
     let faces: Vec<Face> = fonts.iter().map(|f| Face::from_slice(&f.data, 0).expect("generated font")).collect();
     let mut letters = letters();
     // precomposed letters no font maps: .notdef where the font lacks the pieces, decomposed where it has them
@@ -862,6 +881,7 @@ fn one(args: &[String]) {
     let mut fonts = gen_fonts(&spec);
     fonts.push(gen_font_full(true, true, &spec, None, true));
     fonts.push(gen_font_full(false, false, &spec, None, true));
+    fonts.push(gen_font_full2(true, true, &spec, None, true, true));
     let name = arg_str(args, "--font").unwrap_or("SM");
     let fi = fonts.iter().position(|f| f.name == name).unwrap_or(0);
     let face = Face::from_slice(&fonts[fi].data, 0).expect("generated font");
